@@ -31,7 +31,7 @@ def run(ctx):
                          "segments, malformed v2, legacy 41+ characters, near-legacy, JWT-like, random bytes) x remote ids; provider with 0-4 "
                          "tokens and a stub local backend (401 / error / resolved to the remote's or another cluster's uuid); legacy controller "
                          "path observed at the wire (recording HTTP transport): remoteClusterRequest with tokens in every subset of {Bearer/OAuth2/"
-                         "Basic header, query, form body, cookie} and a stub database (unreachable / token unknown / user local, of the remote, "
+                         "Basic header, query, form body, cookie}, repeated and empty api_token values, and a stub database (unreachable / query fails / token unknown / user local, of the remote, "
                          "of a third cluster), and the whole handler stack (by uuid, cluster_id, multi-cluster uuid query, collection by PDH, "
                          "container request for another cluster with token origin x user origin x scopes); federation.Conn.ContainerRequestCreate "
                          "(token issued here / elsewhere / legacy / unknown x user origin x scopes x explicit runtime_token x target) and other Conn "
